@@ -215,7 +215,8 @@ fn rt<T: for<'a> Parse<&'a [u8]> + Compose<Vec<u8>> + PartialEq + std::fmt::Debu
     v.compose(&mut buf).unwrap();
     let mut rd = &buf[..];
     let back = T::parse(&mut rd);
-    if !(matches!(&back, Ok(b) if b == v) && rd.is_empty()) {
+    let same_text = match &back { Ok(b) => format!("{:?}", b) == format!("{:?}", v), Err(_) => false };
+    if !(matches!(&back, Ok(b) if b == v) && same_text && rd.is_empty()) {
         bad.push(format!("{} ({} bytes encoded, {} left unread)", what, buf.len(), rd.len()));
     }
 }
@@ -229,6 +230,10 @@ fn c28_native_blob_roundtrip() {
         let path: String = std::iter::repeat('a').take(n).collect();
         let r = uri::Rsync::from_str(&format!("rsync://example.net/module/{}", path)).unwrap();
         rt(&format!("rsync URI with a path of {} octets", n), &r, &mut bad);
+        let r = uri::Rsync::from_str(&format!("rsync://Host.Example.NET/Mixed-Case_Module/Dir/{}.CER", path)).unwrap();
+        rt(&format!("mixed-case rsync URI with a path of {} octets", n), &r, &mut bad);
+        let h = uri::Https::from_str(&format!("https://Host.Example.NET/Dir/{}.XML", path)).unwrap();
+        rt(&format!("mixed-case https URI with a path of {} octets", n), &h, &mut bad);
         let h = uri::Https::from_str(&format!("https://example.net/{}", path)).unwrap();
         rt(&format!("https URI with a path of {} octets", n), &h, &mut bad);
         rt(&format!("Some(https URI) with a path of {} octets", n), &Some(h), &mut bad);
